@@ -64,10 +64,12 @@ impl<'a> Ctx<'a> {
     fn step(&self, m: &M, s: &BitSeq, op: &str, f: impl FnOnce(&mut BitSeq), model: Option<M>) -> Option<M> {
         self.run.add("op_calls", 1);
         let mut t = *s;
-        let r = catch(|| {
-            f(&mut t);
-            t
-        });
+        let r = catch(|| f(&mut t)).map(|()| t);
+        if r.is_err() && !(t == *s && same(&t, m)) {
+            // "rejected rather than corrupting the value": a caller that catches the rejection must
+            // find the sequence as it was
+            self.fail(m, op, format!("the operation was rejected (panic) but left the sequence changed: now {} (len {})", t, t.len()));
+        }
         match (model, r) {
             (Some(exp), Ok(got)) if exp.len() <= 64 => {
                 if same(&got, &exp) {
